@@ -36,6 +36,7 @@ Conf == [
   q_scope     |-> WithTop(U(<<"sset", "specs", "tuple", "dict", "coalesce">>, "scopel", "one", 3, 4, 2, 2, <<1>>), "scope"),
   q_sets      |-> U(<<"set", "fill", "tuple", "dict">>, "setl", "one", 3, 4, 2, 2, <<1, 3>>),
   q_top       |-> WithTop(U(<<"tuple", "dict", "coalesce">>, "small", "one", 2, 3, 2, 2, <<1, 3>>), "some"),
+  q_refscope  |-> U(<<"ref", "refopen", "refshadow", "dict", "tuple">>, "reflx", "one", 4, 5, 2, 2, <<1>>),
   q_ref       |-> U(<<"ref", "tuple", "coalesce">>, "refl", "one", 4, 5, 2, 2, <<1>>),
   \* ---- thorough tier ----
   t_chains    |-> U(<<"tuple", "pipe">>, "small", "basic", 4, 5, 2, 3, <<1, 3>>),
@@ -43,6 +44,7 @@ Conf == [
   t_scope     |-> WithTop(U(<<"sset", "specs", "tuple", "pipe", "dict", "coalesce", "list">>, "scopel", "one", 3, 5, 2, 2, <<1>>), "scope"),
   t_sets      |-> U(<<"set", "fill", "tuple", "dict", "coalesce", "list">>, "setl", "one", 4, 4, 2, 2, <<1, 3>>),
   t_top       |-> WithTop(U(<<"tuple", "dict", "coalesce", "list">>, "small", "basic", 3, 4, 2, 2, <<1>>), "some"),
+  t_refscope  |-> U(<<"ref", "refopen", "refshadow", "dict", "tuple">>, "reflx", "one", 5, 6, 2, 2, <<1>>),
   t_ref       |-> U(<<"ref", "tuple", "coalesce", "list">>, "refl", "basic", 4, 5, 2, 2, <<1, 2>>),
   t_nest      |-> U(Containers, "small", "basic", 3, 4, 2, 3, <<1, 2, 3>>),
   t_nest5     |-> U(<<"dict", "list", "tuple">>, "tiny", "basic", 3, 5, 2, 3, <<1>>),
@@ -60,9 +62,10 @@ Conf == [
   m_top       |-> WithTop(U(<<"tuple">>, "tiny", "one", 2, 2, 2, 2, <<1>>), "some"),
   m_set       |-> U(<<"set", "fill">>, "setl", "one", 3, 3, 2, 2, <<1>>),
   m_scope     |-> WithTop(U(<<"sset", "tuple">>, "scopel", "one", 3, 4, 2, 3, <<1>>), "scope"),
+  m_ref       |-> U(<<"ref", "refopen", "refshadow", "dict", "tuple">>, "reflx", "one", 4, 4, 2, 2, <<1>>),
   probe       |-> U(<<>>, "tiny", "basic", 1, 0, 0, 0, <<1>>) ]
 
-AllKinds == {"inspect", "set", "sset", "specs",
+AllKinds == {"refopen", "refshadow", "inspect", "set", "sset", "specs",
              "dict", "odict", "dictk", "list", "tuple", "pipe", "spec", "coalesce", "call", "invoke",
              "ref", "fill", "auto"}
 
@@ -113,8 +116,9 @@ SG(name, form) == [op |-> "sget", name |-> name, form |-> form]
 ScopeLeaves == {SG("v", "."), SG("v", "["), SG("w", "."), [op |-> "aset", name |-> "v"],
                 P("a", <<"a">>), F("inc"), F("ret_SKIP")}
 SetLeaves == {TT(<<>>), TT(<<Step("[", S("a"))>>), P("a", <<"a">>), F("inc"), F("ret_SKIP"), V(VNone)}
+RefScopeLeaves == {P("n", <<"n">>), P("a", <<"a">>), F("inc")}
 RefLeaves == {P("n", <<"n">>), P("a", <<"a">>), F("inc")}
-LeavesOf(c) == (CASE c.leaf = "tiny" -> TinyLeaves [] c.leaf = "refl" -> RefLeaves [] c.leaf = "scopel" -> ScopeLeaves [] c.leaf = "setl" -> SetLeaves [] c.leaf = "nonel" -> NoneLeaves [] c.leaf = "argtiny" -> ArgTinyLeaves [] c.leaf = "small" -> SmallLeaves [] c.leaf = "full" -> FullLeaves
+LeavesOf(c) == (CASE c.leaf = "tiny" -> TinyLeaves [] c.leaf = "refl" -> RefLeaves [] c.leaf = "reflx" -> RefScopeLeaves [] c.leaf = "scopel" -> ScopeLeaves [] c.leaf = "setl" -> SetLeaves [] c.leaf = "nonel" -> NoneLeaves [] c.leaf = "argtiny" -> ArgTinyLeaves [] c.leaf = "small" -> SmallLeaves [] c.leaf = "full" -> FullLeaves
                   [] c.leaf = "argsmall" -> ArgSmallLeaves [] OTHER -> ArgLeaves)
                \cup (IF \E i \in 1..Len(c.kinds) : c.kinds[i] = "ref" THEN {RefUse} ELSE {})
 
@@ -259,7 +263,7 @@ Compose ==
           \/ KindOn("spec") /\ n = 1 /\ Made(n, Wrap("spec", kids[1]), FALSE)
           \/ KindOn("fill") /\ n = 1 /\ Made(n, Wrap("fill", kids[1]), FALSE)
           \/ KindOn("auto") /\ n = 1 /\ Made(n, Wrap("auto", kids[1]), FALSE)
-          \/ /\ KindOn("ref") /\ n = 1 /\ AnyOpen(Top(n))
+          \/ /\ KindOn("ref") /\ n = 1 /\ (AnyOpen(Top(n)) \/ KindOn("refopen"))   \* ("refopen": also definitions nobody uses)
              /\ Made(n, [op |-> "ref", name |-> "r", def |-> TRUE, kids |-> kids], TRUE)
           \/ /\ KindOn("coalesce") /\ n >= 1
              /\ \E o \in CoalOpts :
@@ -272,6 +276,13 @@ Compose ==
           \/ /\ KindOn("call") /\ n = 1       \* args / kwargs given by a spec instead of a literal
              /\ \/ Made(n, [op |-> "call", func |-> F("echo"), args |-> kids[1], kwargs |-> EmptyDict], FALSE)
                 \/ Made(n, [op |-> "call", func |-> F("echo"), args |-> Tup(<<>>), kwargs |-> kids[1]], FALSE)
+          \/ /\ KindOn("refshadow") /\ n = 2      \* one name defined twice: the inner definition ends with its sub-spec
+             /\ \E useFirst \in BOOLEAN :
+                  LET inner == [op |-> "ref", name |-> "r", def |-> TRUE, kids |-> <<kids[1]>>]
+                      use   == Tup(<<kids[2], RefUse>>)
+                      body  == IF useFirst THEN Dict(FALSE, <<Lit(S("p")), Lit(S("q"))>>, <<use, inner>>)
+                               ELSE Dict(FALSE, <<Lit(S("p")), Lit(S("q"))>>, <<inner, use>>) IN
+                  Made(n, [op |-> "ref", name |-> "r", def |-> TRUE, kids |-> <<body>>], TRUE)
           \/ /\ KindOn("inspect") /\ n = 1
              /\ \E iv \in InspVariants :
                   \* an Inspect below a recursive Inspect makes the library recurse without end (reported);
@@ -288,7 +299,7 @@ Compose ==
              /\ \E iv \in InvTemplates(kids) : Made(n, iv, FALSE)
 
 Evaluate ==
-  /\ phase = 0 /\ Len(stack) = 1 /\ ~stack[1].open
+  /\ phase = 0 /\ Len(stack) = 1 /\ (~stack[1].open \/ KindOn("refopen"))       \* ("refopen": also uses nothing defines)
   /\ \E r \in Roots : \E o \in TopOptsOf(conf) :
        /\ root' = RootTab[r] /\ opts' = o
        /\ pred' = Outcome(RunTop(TargetHeap, RootTab[r], stack[1].s, o, Mutant), Len(TargetHeap))
